@@ -115,6 +115,16 @@ func newPool() *purityPool {
 		panic(err)
 	}
 	p.models["m_modular"] = merged
+	// a second modular model (other modules, other files): what two concurrent FIRST uses of an operation have in common is the
+	// code path, not the object
+	merged2, err := transformer.TransformModuleFilesToModel([]transformer.ModuleFile{
+		{Name: "core/base.fga", Contents: "module base\n\ntype user\n\ntype team\n  relations\n    define member: [user]\n\ncondition in_team(x: int) {\n  x > 0\n}\n"},
+		{Name: "ext/wiki.fga", Contents: "module wiki\n\ntype page\n  relations\n    define editor: [user, team#member]\n\nextend type team\n  relations\n    define lead: [user with in_team]\n"},
+	}, "1.2")
+	if err != nil {
+		panic(err)
+	}
+	p.models["m_modular2"] = merged2
 	other, err := transformer.TransformDSLToProto("model\n  schema 1.1\n\ntype user\n\ntype org\n  relations\n    define admin: [user]\n\ntype repo\n  relations\n    define owner: [org]\n    define admin: [user] or admin from owner\n    define viewer: [user, user:*] or admin\n")
 	if err != nil {
 		panic(err)
